@@ -29,7 +29,8 @@ def gen_perturbation(rng, rl):
         elif k == "folder":
             env["folder"] = True
         elif k == "ctor_seed":
-            env["ctor_seed"] = rng.choice([None, rng.randrange(1, 2 ** 31)])
+            # (an explicit other seed, never None: OS entropy would make a failing run impossible to replay exactly)
+            env["ctor_seed"] = rng.randrange(1, 2 ** 31)
         elif k == "ambient":
             env["ambient"] = rng.randrange(1, 2 ** 31)
         elif k == "clock":
